@@ -66,7 +66,12 @@ func decodeString(f reflect.Type, t reflect.Type, data any) (any, error) {
 		v := reflect.ValueOf(data).Elem()
 		// A nil behind the pointer (a nil pointer or a nil interface) is not a value to decode from: leave the data as
 		// it is, so that it is handled (and reported) like any other value of an unexpected type
-		if !v.IsValid() || ((v.Kind() == reflect.Ptr || v.Kind() == reflect.Interface) && v.IsNil()) {
+		// (also when the nil pointer sits inside an interface behind the pointer)
+		inner := v
+		for inner.IsValid() && inner.Kind() == reflect.Interface && !inner.IsNil() {
+			inner = inner.Elem()
+		}
+		if !inner.IsValid() || ((inner.Kind() == reflect.Ptr || inner.Kind() == reflect.Interface) && inner.IsNil()) {
 			return data, nil
 		}
 		f = f.Elem()
